@@ -1,4 +1,5 @@
 import PyrexVerif.Proofs.H5FileGenCount
+import PyrexVerif.Proofs.H5Source
 /-!
 # C12 — every way of reading or continuing a file yields the same event stream
 
@@ -140,6 +141,14 @@ theorem C12_filegen_count_total (files : List File) (frac : Frac)
     cases hB : (cntSpec frac (base + lastc frac f) r).getLast? with
     | none => rw [hB] at h2; simp at h2 ⊢; omega
     | some x => rw [hB] at h2; simp at h2 ⊢; omega
+
+/-- `EventIterator._load_data` and `__next__` in the source are statement for statement what
+`loadTable` / `next` model (regenerated from `pyrex/io.py` on every run): one block read from the
+smallest start to the end of the last cell with the largest start, every event cut at
+`start - tmp_start` (the F8 repair), chunk end `min(start + slice_range, max_events)`, counter reset
+on reload.  Any edit of these statements in `/repo` breaks this theorem. -/
+theorem C12_load_cut_matches_source :
+    H5Gen.loadCut = modelLoadCut ∧ H5Gen.nextShape = modelNextShape := ⟨rfl, rfl⟩
 
 /-! ### The unrepaired `_load_data` (cumulative cut) is wrong: sanity check that the theorems are not vacuous -/
 
